@@ -419,6 +419,13 @@ func chanJoinOrder(r *core.Run, prog *core.Program, prop string, rels []string) 
 					joins := recvsOn(fn, done)
 					jinst := fmt.Sprintf("%s/JOIN:%s->%s", prop, fkey, it.name)
 					if mk, ok := done.(*ssa.MakeChan); ok {
+						// capacity len(X) with one launch per element of X and one send per goroutine
+						if call, ok := stripConv(mk.Size).(*ssa.Call); ok && !it.s.sendLoop[di] && blockInCycle(it.l.g.Block()) {
+							if bi, ok := call.Call.Value.(*ssa.Builtin); ok && bi.Name() == "len" && len(call.Call.Args) == 1 {
+								r.OK(prop+"/JOIN", jinst, pos, "the goroutine's single send goes to a channel buffered for one message per launched goroutine (capacity len(…) of the list the launches range over): it cannot block on it")
+								continue
+							}
+						}
 						if c, ok := mk.Size.(*ssa.Const); ok && c.Int64() >= 1 && !it.s.sendLoop[di] {
 							r.OK(prop+"/JOIN", jinst, pos, "the goroutine's single send goes to a buffered channel of the launcher: it cannot block on it")
 							continue
